@@ -18,13 +18,12 @@
 (* of per-usage-pattern dictionaries (key = usage pattern) and the pseudo  *)
 (* slot "#" that stands for the key set of such a dictionary.              *)
 (***************************************************************************)
-EXTENDS Naturals, Sequences, FiniteSets, TLC
+EXTENDS EFPyList
 
 NoKey == "-"
 KeysKey == "#"
 SYS == "sys"
 
-SeqSet(s) == {s[i] : i \in DOMAIN s}
 Count(s, x) == Cardinality({i \in DOMAIN s : s[i] = x})
 Max(S) == CHOOSE x \in S : \A y \in S : y <= x
 
@@ -455,4 +454,44 @@ ChainWellOrdered(T2, seq) ==
         /\ \A it \in inChain : it[1] \in AllObjs(T2) =>
              \A s \in SlotsOfItem(T2, it[1], it[2]) \cap DOMAIN R2 :
                \A r \in R2[s] : ItemOf(r) \in inChain /\ ItemOf(r) # it => idx(ItemOf(r)) < idx(it)
+
+(***************************** applying changes ****************************)
+ApplyOne(T, c) ==
+    IF c.kind = "input" THEN T
+    ELSE IF c.attr = "usage_journey" THEN [T EXCEPT !.uj[c.obj] = c.new]
+    ELSE IF c.attr = "network" THEN [T EXCEPT !.net[c.obj] = c.new]
+    ELSE IF c.attr = "country" THEN [T EXCEPT !.country[c.obj] = c.new]
+    ELSE IF c.attr = "server" THEN [T EXCEPT !.server[c.obj] = c.new]
+    ELSE IF c.attr = "uj_steps" THEN [T EXCEPT !.stepsOf[c.obj] = c.new]
+    ELSE IF c.attr = "jobs" THEN [T EXCEPT !.jobsOf[c.obj] = c.new]
+    ELSE IF c.attr = "devices" THEN [T EXCEPT !.devs[c.obj] = c.new]
+    ELSE IF c.attr = "storage" THEN [T EXCEPT !.storage[c.obj] = c.new]
+    ELSE IF c.attr = "usage_patterns" THEN [T EXCEPT !.sysups = c.new]
+    ELSE Assert(FALSE, <<"unknown change", c>>)
+
+RECURSIVE ApplyAll(_, _, _)
+ApplyAll(T, cs, i) == IF i > Len(cs) THEN T ELSE ApplyAll(ApplyOne(T, cs[i]), cs, i + 1)
+
+ListOf(T, o, a) ==
+    CASE a = "uj_steps" -> T.stepsOf[o]
+      [] a = "jobs" -> T.jobsOf[o]
+      [] a = "devices" -> T.devs[o]
+      [] a = "usage_patterns" -> T.sysups
+
+(* the objects that hold a forward link to o *)
+ContainersOf(T, o) ==
+    {up \in T.ups : T.uj[up] = o \/ T.net[up] = o \/ T.country[up] = o \/ o \in SeqSet(T.devs[up])}
+    \cup {uj \in T.ujs : o \in SeqSet(T.stepsOf[uj])}
+    \cup {st \in T.steps : o \in SeqSet(T.jobsOf[st])}
+    \cup {j \in T.jobs : T.server[j] = o}
+    \cup {v \in T.servers : T.storage[v] = o}
+    \cup (IF o \in SeqSet(T.sysups) THEN {SYS} ELSE {})
+
+Restrict(f, X) == [x \in (DOMAIN f) \ X |-> f[x]]
+(* self_delete of an unreferenced object: it disappears together with its forward links *)
+RemoveObj(T, o) ==
+    [T EXCEPT !.ups = @ \ {o}, !.ujs = @ \ {o}, !.steps = @ \ {o}, !.jobs = @ \ {o},
+              !.uj = Restrict(@, {o}), !.net = Restrict(@, {o}), !.country = Restrict(@, {o}),
+              !.devs = Restrict(@, {o}), !.stepsOf = Restrict(@, {o}), !.jobsOf = Restrict(@, {o}),
+              !.server = Restrict(@, {o})]
 =============================================================================
